@@ -403,8 +403,90 @@ def r11_5_counters(ctx: Ctx):
     ctx.floor(rid, 'writers of the counters read by the stop routine', n, 3)
 
 
+def r11_7(ctx: Ctx):
+    """Solve = repeated single iterations and nothing else that the search can see: every statement of the solve
+    driver that is not the iteration call, the stop test, the refinement, the result getter or a notification
+    leaves alone the state the iteration path reads.  Otherwise DoGlobalIteration(k) followed by Solve differs from
+    Solve alone."""
+    rid = 'R11.7'
+    ctx.rule(rid, 'the solve driver changes search state only through the iteration call: no other statement of it '
+                  'writes a field (or container) that the iteration path or the stop routine reads')
+    roles = C.roles_of(ctx)
+    try:
+        sd, drv, sr, rf, rg = roles.solve_driver, roles.iter_driver, roles.stop_routine, roles.refine_driver, \
+            roles.results_getter
+    except RoleMissing as e:
+        ctx.fail(rid, f'role {e.role}', 'iOpt/', str(e), key=f'{rid}::role::{e.role}')
+        return
+    from .c13 import solver_state
+    from ..index import mangle
+    state = solver_state(ctx)
+    lst = roles.listener_methods()
+    excluded = {roles.fq(x) for x in (drv, sr, rf, rg)} | lst
+    # field names read on the iteration path / by the stop routine
+    readers = (roles.reach(drv) | roles.reach(sr) | {roles.fq(drv), roles.fq(sr)}) - lst
+    read_fields: Set[str] = set()
+    for q in readers:
+        f = ctx.ix.funcs.get(q)
+        if f is None or f.kind != 'function':
+            continue
+        cn = f.cls.name if f.cls is not None else None
+        for nd in ast.walk(f.node):
+            if isinstance(nd, ast.Attribute) and isinstance(nd.ctx, ast.Load):
+                read_fields.add(mangle(cn, nd.attr))
+    ctx.floor(rid, 'attribute names read on the iteration path', len(read_fields), 20)
+
+    def names_of_container(o) -> Set[str]:
+        out = set()
+        for so in state:
+            for k, v in ctx.pta._fields_of(so):
+                fld = k[2] if isinstance(k, tuple) and len(k) == 3 else k
+                if o in v and isinstance(fld, str):
+                    out.add(fld)
+        return out
+
+    def judge(m, via: str):
+        if m.init_self:
+            return
+        hit = [o for o in m.bases if o in state]
+        if not hit:
+            return
+        if m.kind in ('attr', 'aug') and isinstance(m.field, str):
+            flds = {m.field}
+        else:
+            flds = set()
+            for o in hit:
+                flds |= names_of_container(o)
+        seen = sorted(flds & read_fields)
+        if not seen:
+            return
+        ctx.fail(rid, sd.short, m.loc(),
+                 f'{sd.short} changes search state outside the iteration call{via}: {m.text()[:70]} writes '
+                 f'{seen[:3]}, which the iteration path reads - iterations made through DoGlobalIteration followed '
+                 f'by Solve no longer give the trial sequence of Solve alone',
+                 key=f'{rid}::{sd.short}::writes::{seen[0]}')
+    n = 0
+    own = [m for m in roles.mutations() if m.func is sd]
+    for m in own:
+        n += 1
+        judge(m, '')
+    for nd in ast.walk(sd.node):
+        if isinstance(nd, ast.Call):
+            for c in ctx.pta.internal_callees(sd, nd):
+                q = roles.fq(c)
+                if q in excluded or c.name == '__init__':
+                    continue
+                n += 1
+                r_ = ctx.pta.reachable([c], stop=lambda q2: q2 in lst or q2 in excluded)
+                for m in E.mutations_in(ctx, r_):
+                    judge(m, f' (through {c.short})')
+    ctx.ok(rid, sd.short, f'{n} write sites / helper calls of the solve driver examined: none writes what the '
+                          f'iteration path reads', sd.loc())
+    ctx.floor(rid, 'write sites and helper calls in the solve driver', n, 1)
+
+
 def check(ctx: Ctx):
-    for rid, fn in (('R11.1', r11_1), ('R11.2', r11_2), ('R11.3', r11_3), ('R11.4', r11_4)):
+    for rid, fn in (('R11.1', r11_1), ('R11.2', r11_2), ('R11.3', r11_3), ('R11.4', r11_4), ('R11.7', r11_7)):
         if C.want(ctx, rid):
             fn(ctx)
     if C.want(ctx, 'R11.5'):
